@@ -23,6 +23,11 @@ EXPLANATION = (
     ' (R16) kind ladders over Value::Matrix<K> / Value::<K> whose catch-all arm panics name every element kind the Value enum has; (R17) constant codecs agree field by field: the named fields ConstElem::write_le writes are read by from_le and written by CompileConst::compile_const in the same order and width.'
     " (R4, extended) the function-call arms of run_program agree on their effects: each records self.out from the function's out(); an arm that forgets it makes run_program return the previous instruction's value."
     " (R18) a codec writer emits every value once: no straight-line region of a byte-layout writer writes the same non-constant value twice."
+    " (R19) byte lengths: every type-tag arm of the constant-table decoder (and every kind arm of the nested value decoder, and every element reader) neither returns an error nor panics, "
+    "for a reason independent of the bytes, on a blob whose length the encoder of the Value variant it builds can emit - the set of encoder lengths (fixed fields + free payloads + nested "
+    "writers + loops, the empty string / matrix / set / table included) is computed from the encoders' MIR, the decoder is interpreted over a buffer of n unknown bytes for every n up to 128; the "
+    "pre-dispatch entry checks accept every alignment the writer-side align() functions declare at offsets that are multiples of it. What is decided is this length/guard agreement, not the "
+    "decoded value and not rejections that depend on the bytes."
 )
 
 EVALUATORS = {
@@ -518,3 +523,5 @@ def _run(F, rep, tier):
     c06_codec.panicking_kind_ladders(F, rep, core)
     from rules.c07_fields import run_const_fields
     run_const_fields(F, rep, "mech_core.lib", "C06-R17")
+    from rules import c06_sizes
+    c06_sizes.run(F, rep, core)
